@@ -53,3 +53,74 @@ pub fn as_read_by_ciborium(i: &Item) -> Item {
         other => other.clone(),
     }
 }
+
+#[cfg(test)]
+mod tests {
+    use super::*;
+    use crate::cbor::{encode, encode_styled, read_lenient, read_strict, StyleOpts};
+    use crate::gen::gen_value;
+    use crate::tape::Gen;
+
+    /// Tag 2/3 over a byte string of at most 16 bytes is an encoding style of an integer.
+    fn fold_bignums(i: &Item) -> Item {
+        match i {
+            Item::Tag(t, inner) if *t == 2 || *t == 3 => match &**inner {
+                Item::Bytes(b) if b.len() <= 16 => {
+                    let mut v: i128 = 0;
+                    for x in b {
+                        v = (v << 8) | *x as i128;
+                    }
+                    Item::Int(if *t == 2 { v } else { -1 - v })
+                }
+                other => Item::Tag(*t, Box::new(fold_bignums(other))),
+            },
+            Item::Tag(t, inner) => Item::Tag(*t, Box::new(fold_bignums(inner))),
+            Item::Array(a) => Item::Array(a.iter().map(fold_bignums).collect()),
+            Item::Map(m) => Item::Map(m.iter().map(|(k, v)| (fold_bignums(k), fold_bignums(v))).collect()),
+            other => other.clone(),
+        }
+    }
+
+    fn tape(seed: u64, n: usize) -> Vec<u8> {
+        let mut x = seed.wrapping_mul(0x9e3779b97f4a7c15) | 1;
+        (0..n)
+            .map(|_| {
+                x ^= x << 13;
+                x ^= x >> 7;
+                x ^= x << 17;
+                (x >> 24) as u8
+            })
+            .collect()
+    }
+
+    /// The harness' codec agrees with ciborium on generated items: styled encodings parse (with
+    /// ciborium and with the lenient reader) to the item; the deterministic encoding equals
+    /// ciborium's serialisation and is accepted by the strict reader.
+    #[test]
+    fn codec_agrees_with_ciborium() {
+        let mut checked = 0;
+        for seed in 0..20000u64 {
+            let t = tape(seed, 256);
+            let mut g = Gen::new(&t);
+            let item = gen_value(&mut g, 3, true);
+            let mut it = item.clone();
+            let styled = encode_styled(&mut it, &mut g, StyleOpts::ALL);
+            let mut s = &styled[..];
+            let v: Value = coset::cbor::de::from_reader(&mut s).unwrap_or_else(|e| panic!("ciborium rejects styled encoding {:?} of {:?}: {:?}", crate::cbor::hex(&styled), item, e));
+            assert!(s.is_empty());
+            assert_eq!(value_to_item(&v), as_read_by_ciborium(&item), "styled {:?}", crate::cbor::hex(&styled));
+            // lenient reader: same item except that bignum-styled integers read as tags
+            assert_eq!(fold_bignums(&read_lenient(&styled).unwrap()), item);
+            let det = encode(&item);
+            assert_eq!(read_strict(&det).unwrap(), item);
+            let mut out = vec![];
+            coset::cbor::ser::into_writer(&item_to_value(&item).unwrap(), &mut out).unwrap();
+            // ciborium keeps the width of signalling NaNs; everything else must match byte for byte
+            if !item.contains_nan() {
+                assert_eq!(out, det, "{:?}", item);
+            }
+            checked += 1;
+        }
+        assert_eq!(checked, 20000);
+    }
+}
